@@ -73,8 +73,8 @@ type c16Stream struct {
 	th       uint64
 	cb       func()
 	closed   bool
-	baCalls  int       // calls of BufferedAmount(): a writer has taken its flow-control decision
-	gate     *c16Gate  // concurrent-writer runs: see c16ConcurrentWriters
+	baCalls  int      // calls of BufferedAmount(): a writer has taken its flow-control decision
+	gate     *c16Gate // concurrent-writer runs: see c16ConcurrentWriters
 }
 
 // c16Gate holds every caller of BufferedAmount() until `want` callers have arrived or `wait` has passed.
@@ -288,7 +288,13 @@ func c16DoReads(c *c16ReadCase) ([]c16ReadOut, bool) {
 			st.mu.Lock()
 			left := len(st.items)
 			st.mu.Unlock()
-			if len(hbc.recvCh) == cap(hbc.recvCh) || left == 0 {
+			over := false
+			select {
+			case <-hbc.closed: // the loop has ended (stream error, over-sized message)
+				over = true
+			default:
+			}
+			if len(hbc.recvCh) == cap(hbc.recvCh) || left == 0 || over {
 				break
 			}
 			time.Sleep(50 * time.Microsecond)
